@@ -7,7 +7,7 @@ func init() {
 			"NewDirectoryGtfsrtSource appends every listed entry's name exactly once and sorts the names on every path to the successful return; " +
 			"in Next, every path through the retry loop is enumerated: on an empty list the stream ends and only then; otherwise exactly one element is removed, from the front, after its name was read; the file read is that front name; a read error and a parse error both lead back to the loop head (never to a return); a success returns the parse of exactly the bytes read; the loop is a consumer loop (one removal per trip, exit on empty), so it terminates. " +
 			"The CLI journal command is checked as a call chain (BuildJournal fed from NewDirectoryGtfsrtSource). Together with C05 for ParseRealtime this is the whole mechanism. " +
-			"Not decided: the behaviour of os.ReadDir/os.ReadFile/sort.Strings themselves; journal equality (C14/C15). (G7) nothing Next reaches keeps package-level state: the message yielded for a file depends on that file only.",
+			"Not decided: the behaviour of os.ReadDir/os.ReadFile/sort.Strings themselves; journal equality (C14/C15). (G7) nothing Next reaches keeps package-level state: the message yielded for a file depends on that file only. ParseRealtime answers nothing with a nil error before proto.Unmarshal has run (an empty file is an error and is skipped).",
 		Rules: []Rule{
 			{Name: "DIR", Doc: "directory source: list all, sort, consume one per iteration from the front, skip on error", MinInstances: 2, Run: runDirSource},
 			{Name: "G7", Doc: "no package-level state under Next (E5 taint): what a file yields depends on that file only, not on the files parsed before it", MinInstances: 35, Run: func(c *Ctx) {
